@@ -306,87 +306,9 @@ func checkC14(c *Ctx, e *Env) {
 			c.Undecide("C14.VALID", key, p.Pos(fn.Pos()), "declared regex source "+v.declared+" is not statically evaluable")
 			continue
 		}
-		// regex match calls on package-level regexps whose language is included in the declared one
-		goodCall := map[*ssa.Call]bool{}
-		var srcs []string
-		for _, ci := range callsIn(fn) {
-			call, isCall := ci.(*ssa.Call)
-			if !isCall || len(call.Call.Args) < 2 {
-				continue
-			}
-			pkg, name := calleePkgName(&call.Call)
-			if pkg != "regexp" || !(strings.HasPrefix(name, "Regexp.Match") || strings.HasPrefix(name, "Regexp.Find")) {
-				continue
-			}
-			ld, isLoad := call.Call.Args[0].(*ssa.UnOp)
-			if !isLoad {
-				continue
-			}
-			gl, isGl := ld.X.(*ssa.Global)
-			if !isGl {
-				continue
-			}
-			src, _, okS := regexSourceOf(p, v.pkg, gl.Name())
-			if !okS || !strings.HasPrefix(src, "^") || !strings.HasSuffix(src, "$") {
-				continue
-			}
-			// the matched subject must be the validator's parameter
-			if prm, isP := call.Call.Args[1].(*ssa.Parameter); !isP || len(fn.Params) == 0 || prm != fn.Params[0] {
-				continue
-			}
-			inc, _, _, err := langIncluded(strings.TrimSuffix(strings.TrimPrefix(src, "^"), "$"), declared)
-			if err == nil && inc {
-				goodCall[call] = true
-				srcs = append(srcs, src)
-			}
-		}
-		ok := len(goodCall) > 0
-		why := ""
-		if ok {
-			paths, complete := enumPaths(fn, 2000)
-			if !complete {
-				ok, why = false, "too many paths"
-			}
-			idx := errResultIndex(fn.Signature)
-			for _, bp := range paths {
-				last := bp[len(bp)-1]
-				ret := last.Instrs[len(last.Instrs)-1].(*ssa.Return)
-				pf := pathFacts(fn, bp, nil)
-				if pf == nil {
-					continue
-				}
-				if idx >= 0 && idx < len(ret.Results) {
-					ev := ret.Results[idx]
-					if ph, isPhi := ev.(*ssa.Phi); isPhi {
-						if e2, has := pf.phis[ph]; has {
-							ev = e2
-						}
-					}
-					if provablyNonNilErr(ev) {
-						continue
-					}
-				}
-				// a success path: some good match call must have come out positive on it
-				matched := false
-				for call := range goodCall {
-					n := &pgNamer{fn: fn, ids: map[ssa.Value]string{}, phis: pf.phis}
-					t := n.term(call, 0)
-					if v, seen := pf.lits[t]; seen && v { // MatchString(...) == true
-						matched = true
-					}
-					if v, seen := pf.lits["("+orderPair(t, "nil")+")"]; seen && !v { // Find…(...) != nil
-						matched = true
-					}
-					if v, seen := pf.lits["("+orderPair(t, "\"\"")+")"]; seen && !v { // FindString(...) != ""
-						matched = true
-					}
-				}
-				if !matched {
-					ok, why = false, fmt.Sprintf("the success return at line %d is reachable without a positive match", posLine(fn, ret))
-				}
-			}
-		} else {
-			why = "no match of the parameter against a package-level anchored regex whose language is within " + v.declared
+		ok, why, srcs := false, "the validator has no parameter", []string(nil)
+		if len(fn.Params) > 0 {
+			ok, why, srcs = acceptsOnlyMatches(p, fn, fn.Params[0], nil, declared, 0)
 		}
 		if ok {
 			c.Hold("C14.VALID", key, p.Pos(fn.Pos()), fmt.Sprintf("every success return lies behind a positive match of the argument against /%s/ ⊆ ^%s$", strings.Join(uniqStrings(srcs), " | "), declared), nil)
@@ -758,4 +680,259 @@ func ruleUniqueAndFK(c *Ctx, m *Model, r *E1) {
 		}
 	}
 	c.Min("reference-column write sites", 30, len(ks))
+}
+
+
+// globRef: a value that is (a field path into) a package-level variable.
+type globRef struct {
+	g      *ssa.Global
+	fields []int
+}
+
+// resolveGlobRef follows loads, field selections, value-receiver spills and — through env — the
+// parameters of a helper back to a package-level variable.
+func resolveGlobRef(v ssa.Value, env map[*ssa.Parameter]globRef, depth int) (globRef, bool) {
+	if depth > 8 {
+		return globRef{}, false
+	}
+	switch y := v.(type) {
+	case *ssa.Global:
+		return globRef{g: y}, true
+	case *ssa.Parameter:
+		r, ok := env[y]
+		return r, ok
+	case *ssa.UnOp:
+		if y.Op == token.MUL {
+			return resolveGlobRef(y.X, env, depth+1)
+		}
+	case *ssa.Field:
+		if r, ok := resolveGlobRef(y.X, env, depth+1); ok {
+			return globRef{g: r.g, fields: append(append([]int(nil), r.fields...), y.Field)}, true
+		}
+	case *ssa.FieldAddr:
+		if r, ok := resolveGlobRef(y.X, env, depth+1); ok {
+			return globRef{g: r.g, fields: append(append([]int(nil), r.fields...), y.Field)}, true
+		}
+	case *ssa.Alloc:
+		// a spilled parameter: exactly one store, of a value that resolves
+		var st *ssa.Store
+		for _, r := range *y.Referrers() {
+			if s, isS := r.(*ssa.Store); isS && s.Addr == y {
+				if st != nil {
+					return globRef{}, false
+				}
+				st = s
+			}
+		}
+		if st != nil {
+			return resolveGlobRef(st.Val, env, depth+1)
+		}
+	case *ssa.ChangeType:
+		return resolveGlobRef(y.X, env, depth+1)
+	}
+	return globRef{}, false
+}
+
+// globalFieldInit: the value stored into field path fs of package-level variable g by its package
+// initialiser (a composite literal is lowered to stores into the variable's fields), resolved again.
+func globalFieldInit(r globRef, depth int) (globRef, bool) {
+	if len(r.fields) == 0 {
+		return r, true
+	}
+	if r.g.Pkg == nil || depth > 4 {
+		return globRef{}, false
+	}
+	init := r.g.Pkg.Func("init")
+	if init == nil {
+		return globRef{}, false
+	}
+	var found *ssa.Store
+	n := 0
+	for _, b := range init.Blocks {
+		for _, in := range b.Instrs {
+			st, isS := in.(*ssa.Store)
+			if !isS {
+				continue
+			}
+			if a, ok := resolveGlobRef(st.Addr, nil, 0); ok && a.g == r.g && len(a.fields) > 0 && len(a.fields) <= len(r.fields) {
+				same := true
+				for i := range a.fields {
+					if a.fields[i] != r.fields[i] {
+						same = false
+					}
+				}
+				if same {
+					found = st
+					n++
+				}
+			}
+		}
+	}
+	if n != 1 {
+		return globRef{}, false
+	}
+	a, _ := resolveGlobRef(found.Addr, nil, 0)
+	v, ok := resolveGlobRef(found.Val, nil, 0)
+	if !ok {
+		return globRef{}, false
+	}
+	v.fields = append(append([]int(nil), v.fields...), r.fields[len(a.fields):]...)
+	return globalFieldInit(v, depth+1)
+}
+
+// acceptsOnlyMatches: every return of fn that can carry a nil error lies behind a positive match of
+// parameter prm against an anchored package-level regex whose language is within `declared` — directly,
+// or because the nil error is that of a helper (function, method of a package-level format value, …)
+// for which the same holds. env binds the parameters of a helper to the package-level variables its
+// caller passed (a format table entry, a compiled regex).
+func acceptsOnlyMatches(p *Program, fn *ssa.Function, prm *ssa.Parameter, env map[*ssa.Parameter]globRef, declared string, depth int) (bool, string, []string) {
+	if depth > 4 || len(fn.Blocks) == 0 {
+		return false, "delegation too deep or no body", nil
+	}
+	goodCall := map[*ssa.Call]bool{}   // regex matches of prm
+	goodHelper := map[*ssa.Call]bool{} // helper calls whose nil error implies such a match
+	var srcs []string
+	whyNot := ""
+	for _, ci := range callsIn(fn) {
+		call, isCall := ci.(*ssa.Call)
+		if !isCall {
+			continue
+		}
+		pkg, name := calleePkgName(&call.Call)
+		if pkg == "regexp" && len(call.Call.Args) >= 2 && (strings.HasPrefix(name, "Regexp.Match") || strings.HasPrefix(name, "Regexp.Find")) {
+			if call.Call.Args[1] != ssa.Value(prm) {
+				continue
+			}
+			r, ok := resolveGlobRef(call.Call.Args[0], env, 0)
+			if ok {
+				r, ok = globalFieldInit(r, 0)
+			}
+			if !ok || r.g.Pkg == nil || len(r.fields) != 0 {
+				continue
+			}
+			src, _, okS := regexSourceOf(p, shortPkg(r.g.Pkg.Pkg.Path()), r.g.Name())
+			if !okS || !strings.HasPrefix(src, "^") || !strings.HasSuffix(src, "$") {
+				continue
+			}
+			inc, _, _, err := langIncluded(strings.TrimSuffix(strings.TrimPrefix(src, "^"), "$"), declared)
+			if err == nil && inc {
+				goodCall[call] = true
+				srcs = append(srcs, src)
+			}
+			continue
+		}
+		// a hand-written helper that receives the parameter
+		sc := call.Call.StaticCallee()
+		if sc == nil || len(sc.Blocks) == 0 || !isRepoPkgPath(fnPkgPath(sc)) || errResultIndex(sc.Signature) < 0 {
+			continue
+		}
+		var sub *ssa.Parameter
+		env2 := map[*ssa.Parameter]globRef{}
+		for i, a := range call.Call.Args {
+			if i >= len(sc.Params) {
+				break
+			}
+			if a == ssa.Value(prm) {
+				sub = sc.Params[i]
+				continue
+			}
+			if r, ok := resolveGlobRef(a, env, 0); ok {
+				env2[sc.Params[i]] = r
+			}
+		}
+		if sub == nil {
+			continue
+		}
+		if ok, w, s2 := acceptsOnlyMatches(p, sc, sub, env2, declared, depth+1); ok {
+			goodHelper[call] = true
+			srcs = append(srcs, s2...)
+		} else {
+			whyNot = sc.Name() + ": " + w
+		}
+	}
+	if len(goodCall)+len(goodHelper) == 0 {
+		w := "no match of the parameter against a package-level anchored regex whose language is within the declared one"
+		if whyNot != "" {
+			w += " (" + whyNot + ")"
+		}
+		return false, w, nil
+	}
+	paths, complete := enumPaths(fn, 2000)
+	if !complete {
+		return false, "too many paths", nil
+	}
+	idx := errResultIndex(fn.Signature)
+	for _, bp := range paths {
+		last := bp[len(bp)-1]
+		ret, isRet := last.Instrs[len(last.Instrs)-1].(*ssa.Return)
+		if !isRet {
+			continue
+		}
+		pf := pathFacts(fn, bp, nil)
+		if pf == nil {
+			continue
+		}
+		var ev ssa.Value
+		if idx >= 0 && idx < len(ret.Results) {
+			ev = ret.Results[idx]
+			if ph, isPhi := ev.(*ssa.Phi); isPhi {
+				if e2, has := pf.phis[ph]; has {
+					ev = e2
+				}
+			}
+			if provablyNonNilErr(ev) {
+				continue
+			}
+		}
+		matched := false
+		n := &pgNamer{fn: fn, ids: map[ssa.Value]string{}, phis: pf.phis}
+		for call := range goodCall {
+			t := n.term(call, 0)
+			if v, seen := pf.lits[t]; seen && v { // MatchString(...) == true
+				matched = true
+			}
+			if v, seen := pf.lits["("+orderPair(t, "nil")+")"]; seen && !v { // Find…(...) != nil
+				matched = true
+			}
+			if v, seen := pf.lits["("+orderPair(t, "\"\"")+")"]; seen && !v { // FindString(...) != ""
+				matched = true
+			}
+		}
+		for call := range goodHelper {
+			// the helper's error: the call itself or the Extract of its error result
+			var errVal ssa.Value = call
+			if call.Call.Signature().Results().Len() > 1 {
+				errVal = nil
+				ei := errResultIndex(call.Call.Signature())
+				for _, r := range *call.Referrers() {
+					if ex, isEx := r.(*ssa.Extract); isEx && ex.Index == ei {
+						errVal = ex
+					}
+				}
+			}
+			if errVal == nil {
+				continue
+			}
+			if ev == errVal && onPath(bp, call.Block()) { // return helper(x): nil exactly when the helper accepts
+				matched = true
+			}
+			t := n.term(errVal, 0)
+			if v, seen := pf.lits["("+orderPair(t, "nil")+")"]; seen && v { // helper(...) == nil on this path
+				matched = true
+			}
+		}
+		if !matched {
+			return false, fmt.Sprintf("the success return of %s at line %d is reachable without a positive match", fn.Name(), posLine(fn, ret)), nil
+		}
+	}
+	return true, "", srcs
+}
+
+func onPath(bp []*ssa.BasicBlock, b *ssa.BasicBlock) bool {
+	for _, q := range bp {
+		if q == b {
+			return true
+		}
+	}
+	return false
 }
